@@ -66,15 +66,44 @@ class Ctx:
                 self.order_step[n] = k
                 n += 1
         self.initial = {s: D(case["initial"].get(s, "0")) for s in self.syms}
+        # the precision tables in force when each step ran (they change at "reconfig" steps, which apply the exchange's
+        # public setters while the backtest runs)
+        self.now = None
+        self._tables = []
+        sp, pinf = dict(case["sym_prec"]), dict(case["pair_info"])
+        for st in tr.steps:
+            if st["op"][0] == "reconfig":
+                sp, pinf = dict(sp), dict(pinf)
+                if st["op"][1] == "sym":
+                    sp[st["op"][2]] = int(st["op"][3])
+                else:
+                    pinf[str(int(st["op"][2]))] = [int(st["op"][3][0]), int(st["op"][3][1])]
+            self._tables.append((sp, pinf))
 
-    def prec_of_pair(self, pi):
-        c = self.case
-        if str(pi) in c["pair_info"]:
-            return c["pair_info"][str(pi)]
+    def walk(self):
+        """the steps in order; precision lookups made meanwhile answer for the step being visited"""
+        for k, st in enumerate(self.tr.steps):
+            self.now = k
+            yield k, st
+        self.now = None
+
+    def tables(self, k=None):
+        k = self.now if k is None else k
+        if k is None or not self._tables:
+            return self.case["sym_prec"], self.case["pair_info"]
+        return self._tables[min(k, len(self._tables) - 1)]
+
+    def sym_prec(self, k=None):
+        return self.tables(k)[0]
+
+    def prec_of_pair(self, pi, k=None):
+        sp, pinf = self.tables(k)
+        if str(pi) in pinf:
+            return pinf[str(pi)]
         b, q = self.pairs[pi]
-        if b in c["sym_prec"] and q in c["sym_prec"]:
-            return [c["sym_prec"][b], c["sym_prec"][q]]
-        return c["default_pair"]
+        if b in sp and q in sp:
+            return [sp[b], sp[q]]
+        return self.case["default_pair"]
 
     def closes_upto(self, k):
         """last close per pair index after the first k+1 steps"""
@@ -122,7 +151,7 @@ def signed(ctx, o, idx):
 def mon_c01(ctx, out):
     tr = ctx.tr
     prev_tot = dict(ctx.initial)
-    for k, st in enumerate(tr.steps):
+    for k, st in ctx.walk():
         snap = st["snap"]
         tot = {s: snap["balances"][s]["total"] for s in ctx.syms}
         if loans_ok(snap):
@@ -154,7 +183,7 @@ def mon_c01(ctx, out):
 
 
 def mon_c02(ctx, out):
-    for k, st in enumerate(ctx.tr.steps):
+    for k, st in ctx.walk():
         snap = st["snap"]
         for s in ctx.syms:
             b = snap["balances"][s]
@@ -194,7 +223,7 @@ def fills_at(ctx, k):
 
 def mon_c04(ctx, out):
     tr = ctx.tr
-    for k, st in enumerate(tr.steps):
+    for k, st in ctx.walk():
         if st["op"][0] != "bar":
             if fills_at(ctx, k):
                 out.append(("C04", "fill:outside-bar", k, "an order was filled by something other than a bar"))
@@ -301,7 +330,7 @@ def mon_c05(ctx, out):
     cancelled_ok = set()
     prev = {}
     changes = {}        # idx -> list of (is_open, filled, qfilled, fee) after each step where it changed
-    for k, st in enumerate(tr.steps):
+    for k, st in ctx.walk():
         snap = st["snap"]
         cur = order_by_idx(snap)
         op = st["op"]
@@ -439,7 +468,7 @@ def mon_c06(ctx, out):
     tr = ctx.tr
     R = {}
     prev = None
-    for k, st in enumerate(tr.steps):
+    for k, st in ctx.walk():
         snap = st["snap"]
         op = st["op"]
         cur = order_by_idx(snap)
@@ -517,7 +546,7 @@ def observable(snap):
 
 def mon_c07(ctx, out):
     tr = ctx.tr
-    for k, st in enumerate(tr.steps):
+    for k, st in ctx.walk():
         if st["op"][0] in ("create", "cancel", "loan", "repay") and st["reply"][0] == 3:
             before = tr.steps[k - 1]["snap"] if k > 0 else None
             if before is None:
@@ -550,9 +579,25 @@ def mon_c08(ctx, out):
                 p = case["sym_prec"].get(a[1])
                 if p is not None and not on_grid(F(Decimal(str(a[2]))), p):
                     grid_premise = False
-    for k, st in enumerate(tr.steps):
+    for k, st in ctx.walk():
         snap = st["snap"]
-        # grids
+        if st["op"][0] == "reconfig":
+            # the balance clause speaks of an account whose balances are on the grid: from here on that is the account
+            # as it stands now, measured on the new grid
+            for s2 in ctx.syms:
+                p = ctx.sym_prec().get(s2)
+                if p is not None and any(not on_grid(snap["balances"][s2][nm], p) for nm in ("available", "hold", "borrowed")):
+                    grid_premise = False
+            for i, pinf in ctx.tables()[1].items():
+                b, q = case["pairs"][int(i)]
+                if pinf[0] > ctx.sym_prec().get(b, pinf[0]) or pinf[1] > ctx.sym_prec().get(q, pinf[1]):
+                    grid_premise = False
+        if st["op"][0] == "loan":
+            p = ctx.sym_prec().get(st["op"][1])
+            if p is not None and not on_grid(F(Decimal(str(st["op"][2]))), p):
+                grid_premise = False
+        # grids: what each order gained in this step, on the grid in force during this step
+        prev_orders = order_by_idx(tr.steps[k - 1]["snap"]) if k > 0 else {}
         for o in snap["orders"]:
             req = ctx.order_req.get(o["idx"])
             if not req:
@@ -560,14 +605,18 @@ def mon_c08(ctx, out):
             pp = ctx.prec_of_pair(req[3])
             if pp is None:
                 continue
+            po = prev_orders.get(o["idx"])
             fee = sum(o["fees"].values(), ZERO)
-            if not on_grid(o["filled"], pp[0]) or not on_grid(o["qfilled"], pp[1]) or not on_grid(fee, pp[1]):
-                out.append(("C08", "grid:fill-off-grid", k, f"order {o['idx']}: filled {o['filled']} quote {o['qfilled']} "
-                                                            f"fee {fee} with precision {pp}"))
+            d_f = o["filled"] - (po["filled"] if po else ZERO)
+            d_q = o["qfilled"] - (po["qfilled"] if po else ZERO)
+            d_fee = fee - (sum(po["fees"].values(), ZERO) if po else ZERO)
+            if not on_grid(d_f, pp[0]) or not on_grid(d_q, pp[1]) or not on_grid(d_fee, pp[1]):
+                out.append(("C08", "grid:fill-off-grid", k, f"order {o['idx']}: filled {d_f} quote {d_q} "
+                                                            f"fee {d_fee} in this step, with precision {pp}"))
                 return
         if grid_premise:
             for s in ctx.syms:
-                p = case["sym_prec"].get(s)
+                p = ctx.sym_prec().get(s)
                 if p is None:
                     continue
                 b = snap["balances"][s]
@@ -658,13 +707,23 @@ def _others_spend(ctx, before, idx, pi, sym):
 # ------------------------------------------------------------------------------------------------
 def mon_c09(ctx, out):
     case = ctx.case
-    for k, st in enumerate(ctx.tr.steps):
+    traded_under = {}       # order -> quote precisions in force when it traded
+    for k, st in ctx.walk():
+        prev_orders = order_by_idx(ctx.tr.steps[k - 1]["snap"]) if k > 0 else {}
         for o in st["snap"]["orders"]:
             req = ctx.order_req.get(o["idx"])
             if not req:
                 continue
             b, q = ctx.pairs[req[3]]
             qp = ctx.prec_of_pair(req[3])[1]
+            po = prev_orders.get(o["idx"])
+            if o["qfilled"] != (po["qfilled"] if po else ZERO) or o["filled"] != (po["filled"] if po else ZERO):
+                traded_under.setdefault(o["idx"], set()).add(qp)
+            # the formula names one quote precision: it is the one the order traded under (an order whose fills
+            # straddle a change of the quote precision has no single such precision)
+            under = traded_under.get(o["idx"], {qp})
+            straddles = len(under) > 1
+            qp = next(iter(under))
             for s, f in o["fees"].items():
                 if s != q and f != 0:
                     out.append(("C09", "fee:not-in-quote-symbol", k, f"order {o['idx']} charged {f} {s}"))
@@ -678,7 +737,7 @@ def mon_c09(ctx, out):
                 exp = ZERO
             else:
                 exp = round_up(max(o["qfilled"] * D(case["fee"][0]) / 100, D(case["fee"][1])), qp)
-            if fee != exp:
+            if fee != exp and not straddles:
                 out.append(("C09", "fee:total-ne-formula", k,
                             f"order {o['idx']} traded quote {o['qfilled']}: fee {fee}, expected {exp} "
                             f"(scheme {case['fee']}, quote precision {qp})"))
@@ -689,7 +748,7 @@ def mon_c09(ctx, out):
 def mon_c10(ctx, out):
     tr = ctx.tr
     case = ctx.case
-    for k, st in enumerate(tr.steps):
+    for k, st in ctx.walk():
         snap = st["snap"]
         prev = tr.steps[k - 1]["snap"] if k > 0 else {"loans": []}
         new_loans = [l for l in snap["loans"] if l["idx"] >= len(prev["loans"])]
@@ -747,7 +806,7 @@ def expected_interest(ctx, k, loan, created_us, now_us):
         if i is None:
             return None, isym
     i = max(i, D(mn))
-    p = ctx.case["sym_prec"].get(isym)
+    p = ctx.sym_prec(k).get(isym)
     if p is None:
         return None, isym
     return trunc(i, p), isym
@@ -762,7 +821,7 @@ def mon_c11(ctx, out):
     created = {}
     now_us = None
     was_open = {}
-    for k, st in enumerate(tr.steps):
+    for k, st in ctx.walk():
         snap = st["snap"]
         op = st["op"]
         if op[0] == "bar":
